@@ -93,7 +93,18 @@ class HierDictDocument(DictDocument):
             logger.debug("Request: %r", doc)
 
             class_name = self.get_class_name(body_class)
+            sub_name = body_class.Attributes.sub_name
+            is_bare = message is self.REQUEST and sub_name is not None
             if self.ignore_wrappers:
+                if is_bare:
+                    # the in-message of a bare method is the argument type
+                    # itself: its type name is not the key of the request, the
+                    # name that the method gave it is.
+                    if isinstance(class_name, bytes) \
+                                            and not isinstance(sub_name, bytes):
+                        sub_name = sub_name.encode('utf8')
+                    class_name = sub_name
+
                 if isinstance(class_name, bytes) and not (class_name in doc):
                     # the method name can also arrive as a unicode key (e.g.
                     # msgpack str), just like member names do.
@@ -101,7 +112,21 @@ class HierDictDocument(DictDocument):
 
                 doc = doc.get(class_name, None)
 
-            if doc is None:
+            if is_bare and doc is None:
+                # a bare method that is passed null gets None, not an empty
+                # argument list in place of its only argument
+                ctx.in_object = None
+
+            elif message is self.REQUEST and not issubclass(body_class,
+                                                      (ComplexModelBase, Any)):
+                # the argument of a bare method can be of a simple type as well
+                if not self.ignore_wrappers:
+                    doc, = doc.values()
+
+                ctx.in_object = self._from_dict_value(ctx, class_name,
+                                                body_class, doc, self.validator)
+
+            elif doc is None:
                 # e.g. {"method_name": null}: every argument is absent
                 ctx.in_object = [None] * len(body_class._type_info)
 
